@@ -38,7 +38,7 @@ ASSUMPTIONS = [
     "K1 class predicate: some kept off-diagonal pair (i != j, S_ij) has E_i != E_j; in that class only inverse "
     "identities, gauge, all assertions at total order <= 1 and elimination at order 2 are enforced",
 ]
-REQUIRED_CLASSES = {"all": ["class=safe", "class=K1", "blocks=3", "params=2", "repr=sympy", "repr=sparse", "selection=mask", "hermitian-input", "complex-energies", "frame=oblique-pairs", "frame=oblique-pairs+lab-hermitian"]}
+REQUIRED_CLASSES = {"all": ["class=safe", "class=K1", "blocks=3", "params=2", "repr=sympy", "repr=sparse", "selection=mask", "hermitian-input", "complex-energies", "frame=oblique-pairs", "frame=oblique-pairs+lab-hermitian", "asymmetric-mask"]}
 
 
 def strategy(tier):
@@ -64,7 +64,13 @@ def strategy(tier):
     herm = problems(tier, hermitian=True, safe_bias=True, **({"max_N": 10, "max_block_size": 4} if tier == "thorough" else {})).map(
         lambda p: dict(p, hermitian=False, hermitian_input=True)
     )
-    return st.one_of(nh, nh, nh, herm)
+    # the property names asymmetric masks explicitly: one stream of problems always has a (general, usually asymmetric)
+    # mask dictionary; such problems are in the K1 class, where the enforced sub-assertions are the order <= 1 ones,
+    # elimination at order 2, the inverse identities and the gauge
+    kw_m = dict(kw, safe_bias=False, selections=("mask",))
+    base_m = problems(tier, **kw_m)
+    masked = base_m.map(lambda p: dict(p, hermitian_input=False))
+    return st.one_of(nh, nh, masked, herm)
 
 
 def in_k1_class(case):
